@@ -160,3 +160,30 @@ func VerifSubst() {
 	r2, e2 := newInterpreter().Execute(ast, d)
 	verifSameOutcome(r1, e1, r2, e2, mode, "C15:substitution")
 }
+
+// VerifSearchHistory (C13): the public entry points carry no state from an
+// earlier (possibly failing) call into the next one.
+func VerifSearchHistory() {
+	n := verifParam("N")
+	first := verifParamStr("first")
+	b2 := verifParamStr("pre") + verifNondetBytes(n) + verifParamStr("post")
+	Search(first, nil)
+	Compile(first)
+	jp, e1 := Compile(b2)
+	a2, e2 := NewParser().Parse(b2)
+	verifNote("err", e2 != nil)
+	verifAssert((e1 != nil) == (e2 != nil), "C13:compile-after-history-error-ness")
+	if e1 == nil && e2 == nil {
+		verifAssert(verifASTEqual(jp.ast, a2), "C13:compile-after-history-ast")
+	}
+	r1, s1 := Search(b2, nil)
+	if e2 == nil {
+		r2, s2 := newInterpreter().Execute(a2, nil)
+		verifAssert((s1 != nil) == (s2 != nil), "C13:search-after-history-error-ness")
+		if s1 == nil && s2 == nil {
+			verifAssert(verifDeepEqual(r1, r2), "C13:search-after-history-value")
+		}
+	} else {
+		verifAssert(s1 != nil, "C13:search-after-history-error-ness")
+	}
+}
